@@ -286,6 +286,12 @@ pub fn malformed(p: &pm::PoolInfo) -> bool {
     p.assets.len() < 2 || p.assets.len() != p.asset_denoms.len()
 }
 
+/// Decimals of a pool asset looked up by denom (asset_denoms / asset_decimals are parallel lists in creation order;
+/// the reserve list `assets` is never assumed to be in that order by any oracle).
+pub fn dec_of(p: &pm::PoolInfo, denom: &str) -> u32 {
+    p.asset_denoms.iter().position(|d| d == denom).map(|i| p.asset_decimals[i] as u32).unwrap_or(0)
+}
+
 pub fn buffer_present(w: &World) -> bool {
     // raw storage key: wasm namespace of the pool manager + item key
     let needle = b"single_side_liquidity_provision_buffer";
@@ -366,7 +372,8 @@ pub fn seed_ops(name: &str) -> Vec<PuOp> {
             mk_pool("ss", &["uusd", "uusdc", "ausdy"], &[6, 6, 18], fees.clone(), Some(100)),
             prov(OWNER, "o.ss", &[("uusd", 10 * E6), ("uusdc", 10 * E6), ("ausdy", 10 * E18)]),
             mk_pool("cp2", &["uusdc", "uom"], &[6, 6], fees.clone(), None),
-            prov(OWNER, "o.cp2", &[("uusdc", 5 * E6), ("uom", 5 * E6)]),
+            // created with its denoms in non-alphabetical order and funded off 1:1 (a symmetric pool hides reserve mix-ups)
+            prov(OWNER, "o.cp2", &[("uusdc", 5 * E6), ("uom", 8 * E6)]),
             mk_pool("s2", &["uusdc", "ausdy"], &[6, 18], fees, Some(100)),
             prov(OWNER, "o.s2", &[("uusdc", 10 * E6), ("ausdy", 10 * E18)]),
             prov(A, "o.cp", &[("uom", E6), ("uusd", 2 * E6)]),
@@ -460,6 +467,13 @@ pub fn enabled(w: &World, pre: &PuObs, alpha: Alpha) -> Vec<PuOp> {
                 }
             }
             if full {
+                // dust deposit carrying the largest valid deposit tolerance (the only shape a stableswap pool accepts with one)
+                ops.push(pr(A, assets.iter().map(|c| (c.denom.clone(), 1u128)).collect(), None, None, None, Some(10_000)));
+                if n == 2 {
+                    // strongly one-sided two-asset deposits
+                    ops.push(pr(A, vec![(d(0).into(), r(0) / 10 + 1), (d(1).into(), 1)], None, None, None, None));
+                    ops.push(pr(A, vec![(d(0).into(), 1), (d(1).into(), r(1) / 10 + 1)], None, None, None, None));
+                }
                 let mut skew = balanced.clone();
                 skew[0].1 *= 3;
                 ops.push(pr(A, skew, None, None, None, None));
@@ -494,7 +508,7 @@ pub fn enabled(w: &World, pre: &PuObs, alpha: Alpha) -> Vec<PuOp> {
             }
         } else if !swapfocus {
             // unfunded pool: first deposit, refused single-asset deposit, refused swap
-            let init: Funds = assets.iter().zip(&p.pool_info.asset_decimals).map(|(c, dec)| (c.denom.clone(), 3 * 10u128.pow(*dec as u32))).collect();
+            let init: Funds = assets.iter().map(|c| (c.denom.clone(), 3 * 10u128.pow(dec_of(&p.pool_info, &c.denom)))).collect();
             ops.push(PuOp::Provide { u: A, pool: id.into(), funds: init, lock: None, lock_id: None, recv: None, liq_slip: None, swap_slip: None });
             if full {
                 ops.push(PuOp::Provide { u: A, pool: id.into(), funds: vec![(d(0).into(), 100_001)], lock: None, lock_id: None, recv: None, liq_slip: None, swap_slip: None });
@@ -535,6 +549,11 @@ pub fn enabled(w: &World, pre: &PuObs, alpha: Alpha) -> Vec<PuOp> {
         }
         if full {
             ops.push(route(B, &[("uom", "uusd", "o.cp"), ("uusdc", "uusd", "o.ss")], 1000, None, None)); // non-consecutive: refused
+            if has("o.cp2") {
+                // non-consecutive at the second link (the later pool does hold the declared denom), 3 and 4 hops: refused
+                ops.push(route(B, &[("uom", "uusd", "o.cp"), ("uusd", "uusdc", "o.ss"), ("uom", "uusdc", "o.cp2")], 30_000, None, None));
+                ops.push(route(B, &[("uom", "uusd", "o.cp"), ("uusd", "uusdc", "o.ss"), ("uusdc", "uom", "o.cp2"), ("uusd", "uom", "o.cp")], 30_000, None, None));
+            }
         }
     }
     if has("o.cp") && has("o.s4") {
